@@ -17,7 +17,7 @@ pub struct Built {
 pub fn build_case(docs: Option<&[Vec<Node>]>, bytes: &[Vec<u8>], cfg: &RCfg, opts: &[Opts], it: &mut Interner, extra: Vec<(&str, J)>) -> Built {
     let mut tab = ErrTab::default();
     let events: Vec<Vec<Ev>> = bytes.iter().map(|b| record(b, cfg, &mut tab)).collect();
-    let result = run_impl(bytes, cfg, &mut tab);
+    let result = run_impl_guarded(bytes, cfg, &mut tab, 10);
     let mut renders = vec![];
     if let ImplResult::Tree(_, e) = &result {
         for o in opts {
